@@ -252,6 +252,13 @@ pub fn run(ctx: &mut Ctx) {
 		let acc = pf::enum_token_seqs(&tokens, ntok, &two);
 		ctx.add(acc.into_fam("F2_tokens", &format!("every sequence of <= {ntok} tokens from the 16 C01 tokens + 4 surrogate-escape strings"), true, CLASSES, &extra));
 	}
+	if ctx.wants("S_escape_sequences") {
+		ctx.begin_family("S_escape_sequences");
+		let l = ctx.pick(4, 5);
+		let inputs = super::c12::element_sequences(l);
+		let acc = pf::run_list(&inputs, false, &all);
+		ctx.add(acc.into_fam("S_escape_sequences", &format!("every sequence of 1..={l} string elements from {:?} as string value, object key and array item, every entry point: the surrogate errors (missing / invalid low surrogate, invalid code point) carry the reference position; {rule_nt}", super::c12::ELEMENTS), true, CLASSES, &extra));
+	}
 	if ctx.wants("F3_transition_cover") {
 		let numlen = ctx.pick(5, 7);
 		ctx.begin_family("F3_transition_cover");
